@@ -272,59 +272,59 @@ theorem loadPath_congr (w : World) (p : PathE) {st st' : St} (h : StEq st st') :
         · exact importSubs_congr w _ _ hs
         · exact ⟨rfl, hs⟩
 
-theorem getLoop_congr (w : World) (iface : ClassId) (r : Ref) (todo : List PathE) {st st' : St} (h : StEq st st') :
-    ResEq (getLoop w iface r st todo) (getLoop w iface r st' todo) := by
-  induction todo generalizing st st' with
-  | nil => exact ⟨rfl, h⟩
-  | cons p rest ih =>
-    simp only [getLoop, (h.1 iface).1 r]
+theorem searchList_congr {b b' : Bank} (h : BankEq b b') (r : Ref) : searchList b r = searchList b' r := by
+  simp only [searchList, sortPaths_perm h.2]
+
+theorem getLoop_congr (w : World) (iface : ClassId) (r : Ref) (n : Nat) (searched : List Mod) {st st' : St}
+    (h : StEq st st') : ResEq (getLoop w iface r n st searched) (getLoop w iface r n st' searched) := by
+  induction n generalizing st st' searched with
+  | zero => exact ⟨rfl, h⟩
+  | succ n ih =>
+    simp only [getLoop, (h.1 iface).1 r, nextPath, searchList_congr (h.1 iface) r]
     split
     · exact ⟨rfl, h⟩
-    · have h1 := loadPath_congr w p h
-      cases hl : loadPath w st p with
-      | mk s1 e1 =>
-        cases hl' : loadPath w st' p with
-        | mk s1' e1' =>
-          rw [hl, hl'] at h1
-          obtain ⟨hee, hs⟩ := h1
-          simp only at hee hs
-          subst hee
-          cases e1 with
-          | some e => exact ⟨rfl, hs⟩
-          | none => exact ih hs
+    · cases hn : List.find? (fun p => !searched.contains p.mod) (searchList (getBank iface st'.banks) r) with
+      | none => exact ⟨rfl, h⟩
+      | some p =>
+        simp only
+        have h1 := loadPath_congr w p h
+        cases hl : loadPath w st p with
+        | mk s1 e1 =>
+          cases hl' : loadPath w st' p with
+          | mk s1' e1' =>
+            rw [hl, hl'] at h1
+            obtain ⟨hee, hs⟩ := h1
+            simp only at hee hs
+            subst hee
+            cases e1 with
+            | some e => exact ⟨rfl, hs⟩
+            | none => exact ih _ hs
 
+/-- (legacy search list) -/
 theorem todoPaths_congr {b b' : Bank} (h : BankEq b b') (r : Ref) {o o' : List Mod}
     (ho : validOrder b.paths o = true) (ho' : validOrder b'.paths o' = true) : todoPaths b r o = todoPaths b' r o' := by
   have := sortPaths_perm (((validOrder_perm ho).trans h.2).trans (validOrder_perm ho').symm)
   simp only [todoPaths, this]
 
 /-- `Service[reference]` cannot tell equivalent states apart: same outcome, equivalent resulting states -/
-theorem get_congr (w : World) (iface : ClassId) (r : Ref) {st st' : St} (h : StEq st st') {o o' : List Mod}
-    (ho : validOrder (getBank iface st.banks).paths o = true)
-    (ho' : validOrder (getBank iface st'.banks).paths o' = true) :
-    (get w st iface r o).2 = (get w st' iface r o').2 ∧ StEq (get w st iface r o).1 (get w st' iface r o').1 := by
+theorem get_congr (w : World) (iface : ClassId) (r : Ref) {st st' : St} (h : StEq st st') :
+    (get w st iface r).2 = (get w st' iface r).2 ∧ StEq (get w st iface r).1 (get w st' iface r).1 := by
   unfold get
-  rw [(h.1 iface).1 r]
-  cases hl : lookupRef r (getBank iface st'.banks).provider with
-  | some c => exact ⟨rfl, h⟩
-  | none =>
-    simp only
-    rw [todoPaths_congr (h.1 iface) r ho ho']
-    have h1 := getLoop_congr w iface r (todoPaths (getBank iface st'.banks) r o') h
-    cases hg : getLoop w iface r st (todoPaths (getBank iface st'.banks) r o') with
-    | mk s1 e1 =>
-      cases hg' : getLoop w iface r st' (todoPaths (getBank iface st'.banks) r o') with
-      | mk s1' e1' =>
-        rw [hg, hg'] at h1
-        obtain ⟨hee, hs⟩ := h1
-        simp only at hee hs
-        subst hee
-        cases e1 with
-        | some e => exact ⟨rfl, hs⟩
-        | none =>
-          simp only [finish, (hs.1 iface).1 r]
-          cases lookupRef r (getBank iface s1'.banks).provider with
-          | some c => exact ⟨rfl, hs⟩
-          | none => exact ⟨rfl, hs⟩
+  have h1 := getLoop_congr w iface r (searchFuel w) [] h
+  cases hg : getLoop w iface r (searchFuel w) st [] with
+  | mk s1 e1 =>
+    cases hg' : getLoop w iface r (searchFuel w) st' [] with
+    | mk s1' e1' =>
+      rw [hg, hg'] at h1
+      obtain ⟨hee, hs⟩ := h1
+      simp only at hee hs
+      subst hee
+      cases e1 with
+      | some e => exact ⟨rfl, hs⟩
+      | none =>
+        simp only [finish, (hs.1 iface).1 r]
+        cases lookupRef r (getBank iface s1'.banks).provider with
+        | some c => exact ⟨rfl, hs⟩
+        | none => exact ⟨rfl, hs⟩
 
 end ForML.Bank
